@@ -513,6 +513,10 @@ func main() {
 	// one after it (startup rejects them), and an unversioned development build ("dev": not a semver).
 	versions := ev.Pick(r, []string{"v2.5.0", "v3.2.2"}, []string{"v2.5.0", "v3.2.2", "dev"})
 	depth := ev.Pick(r, 12, 14)
+	if d := os.Getenv("C27_BFS_DEPTH"); d != "" { // development aid: a shallower BFS (the run is then reported as capped)
+		fmt.Sscan(d, &depth)
+		r.Cap("C27_BFS_DEPTH override")
+	}
 
 	// determinism self-check: one fixed history executed twice must give the same canonical state
 	probe := []event{{Op: "write", File: "config", C: "V1"}, {Op: "reload"}, {Op: "write", File: "rules", C: "R2"}, {Op: "pubsubReload"}, {Op: "reload"}}
@@ -524,6 +528,7 @@ func main() {
 
 	// the (cheap) E3 part first, so that an internal deadline under load cuts the deep end of the BFS and not this
 	concurrentPart(r, "v2.5.0")
+	watcherPart(r, "v2.5.0") // the timer trigger through the real ConfigWatcher.monitor goroutine (watcher.go)
 	for _, ver := range versions {
 		v := ver
 		seqx.Explore(r, seqx.Scenario[event]{
@@ -531,6 +536,9 @@ func main() {
 			Enabled:  func(h []event) []event { return alphabet },
 			Exec:     func(h []event) (string, string, *seqx.Failure) { return exec(v, h, false) },
 			MaxDepth: depth, Workers: 16,
+			// every history of length <= 3 (alphabet 16, thorough 19) is executed whatever the canonical key says; one
+			// execution costs ~20 ms of CPU (files, NewConfig), so length 4 (65,536 histories per version) is out of reach
+			NoMergeDepth: 2,
 		})
 	}
 	r.Set("traces_validated_against_impl", r.Count("transitions"))
